@@ -11,8 +11,10 @@ import "github.com/insomniacslk/dhcp/dhcpv4"
 //@ contract Logger.Printf
 //@   trusted
 
+// (a logger may look into the message it is given: the serving loop must hand it a message, never nil)
 //@ contract Logger.PrintMessage
 //@   trusted
+//@   requires message != nil
 
 //@ contract net.PacketConn.LocalAddr
 //@   trusted
